@@ -563,8 +563,9 @@ def pa(t, ind):
 # ====================================================================================== part 3: the translator
 # value types: 'usize' 'isize' 'elem' 'bool' 'vec' (Vec<T> / Vector<T>: a list) 'mat' 'poly' 'unit' 'lit' (untyped integer
 # literal) ('tuple', [types]) ('opt', ty)
-GTYPE = {"usize": "nat", "isize": "Z", "elem": "(T A)", "bool": "bool", "vec": "(list (T A))", "mat": "(matrix A)",
+GTYPE = {"vecn": "(list nat)", "usize": "nat", "isize": "Z", "elem": "(T A)", "bool": "bool", "vec": "(list (T A))", "mat": "(matrix A)",
          "poly": "(list (T A))", "unit": "unit", "lit": "nat"}
+LISTS = {"vec": "elem", "vecn": "usize"}          # list-like containers and the type of their elements
 def gtype(ty):
     if isinstance(ty, tuple) and ty[0] == "tuple": return "(" + " * ".join(gtype(x) for x in ty[1]) + ")"
     if isinstance(ty, tuple) and ty[0] == "opt": return "(option %s)" % gtype(ty[1])
@@ -611,6 +612,7 @@ def rust_type(txt, selfty):
     if t in ("T", "f64"): return "elem"
     if t in ("Self", "Self::Output"): return selfty
     if re.match(r"^(Vector|Vec)<(T|f64)>$", t) or t in ("Vec64",): return "vec"
+    if re.match(r"^(Vector|Vec)<usize>$", t): return "vecn"
     if re.match(r"^Matrix<(T|f64)>$", t) or t in ("Mat64",): return "mat"
     if re.match(r"^Polynomial<(T|f64)>$", t): return "poly"
     for pat, ty in RUST_TYPE_RULES:
@@ -829,10 +831,10 @@ class Translator:
     def read_index(self, e, env, B):
         base, ty = self.ex(e[1], env, B)
         idx = e[2]
-        if ty == "vec":
+        if ty in LISTS:
             i, ti = self.ex(idx, env, B)
             if ti not in ("usize", "lit"): self.bad("index of type %s into a vector" % (ti,))
-            v = self.fresh("x"); B.append(("bind", ("v", v), ("app", "rd", [g_raw(base), g_raw(i)]))); return (v, "elem")
+            v = self.fresh("x"); B.append(("bind", ("v", v), ("app", "rd", [g_raw(base), g_raw(i)]))); return (v, LISTS[ty])
         if ty == "mat":
             idx = idx[1] if idx[0] == "paren" else idx
             if idx[0] != "tuple" or len(idx[1]) != 2: self.bad("matrix index that is not a literal pair (i, j)")
@@ -939,14 +941,18 @@ class Translator:
         else: self.bad("call of a computed function")
         ent = self.tb.PATHS.get((path, len(args)))
         if ent is None: self.bad("function `%s/%d` is not in the call table" % (path, len(args)))
-        if ent.get("special") == "swap":
+        if isinstance(ent, dict) and ent.get("special") == "swap":
             return self.mem_swap(args, env, B)
+        vals = [self.ex(a, env, B) for a in args]
+        alts = ent if isinstance(ent, list) else [ent]
+        def fits(ty, pty): return pty is None or ty == pty or (ty == "lit" and pty in ("usize", "isize"))
+        chosen = [a for a in alts if all(fits(ty, pty) for (_, ty), pty in zip(vals, a.get("args", [None] * len(args))))]
+        if not chosen:
+            self.bad("arguments of `%s` have types %s, the call table expects %s" % (path, [ty for _, ty in vals], [a.get("args") for a in alts]))
+        ent = chosen[0]
         avals = []
-        ptys = ent.get("args", [None] * len(args))
-        for a, pty in zip(args, ptys):
-            t, ty = self.ex(a, env, B)
-            if ty == "lit": t = self.lit(t, "lit", pty or "usize"); ty = pty or "usize"
-            if pty is not None and ty != pty: self.bad("argument of `%s` has type %s, the call table expects %s" % (path, ty, pty))
+        for (t, ty), pty in zip(vals, ent.get("args", [None] * len(args))):
+            if ty == "lit": t = self.lit(t, "lit", pty or "usize")
             avals.append(t)
         ent2 = dict(ent)
         if ent.get("ret") == "self": ent2["ret"] = self.selfty
@@ -984,10 +990,11 @@ class Translator:
             base = strip(p[1])
             owner = self.root_var(p, env)
             bty = self.place_type(base, env)
-            if bty == "vec":
+            if bty in LISTS:
                 i, ti = self.ex(p[2], env, B)
                 if ti not in ("usize", "lit"): self.bad("index of type %s" % (ti,))
-                if tval != "elem": self.bad("a %s stored into a vector" % (tval,))
+                if tval == "lit": tval = LISTS[bty]
+                if tval != LISTS[bty]: self.bad("a %s stored into a %s" % (tval, bty))
                 cur, _ = self.ex(base, env, [])
                 direct = self.tb.FIELDS.get((owner.ty, base[2]), ("", ""))[0] == "{0}" if base[0] == "field" else base[0] == "var"
                 if direct and cur == owner.g:                  # x[i] = v  /  x.vec[i] = v : the owner is the list itself
@@ -995,7 +1002,7 @@ class Translator:
                     self.ctx.note(owner); return
                 v = self.fresh("b")
                 B.append(("bind", ("v", v), ("app", "upd", [g_raw(cur), g_raw(i), g_raw(val)])))
-                self.assign_place(base, v, "vec", env, B); return
+                self.assign_place(base, v, bty, env, B); return
             if bty == "mat":
                 if base[0] != "var": self.bad("matrix element assignment through a non-variable")
                 idx = p[2][1] if p[2][0] == "paren" else p[2]
@@ -1174,7 +1181,7 @@ class Translator:
             base = strip(p[1])
             bty = self.place_type(base, env)
             # evaluate the index expressions once, bind them, and reuse them for the read and the write
-            if bty == "vec":
+            if bty in LISTS:
                 i, ti = self.ex(p[2], env, B)
                 idx_e = ("rawtext", i, "usize")
                 place2 = ("index", base, idx_e)
@@ -1238,9 +1245,13 @@ class Translator:
             self.bad("`for` over something that is not a range lo..hi / lo..=hi / (lo..hi).rev()")
         B = []
         lo, tl = self.ex(it[1], env, B); hi, th = self.ex(it[2], env, B)
-        if tl not in ("usize", "lit") or th not in ("usize", "lit"): self.bad("`for` range over %s..%s" % (tl, th))
+        signed = "isize" in (tl, th)
+        if signed:
+            if rev or it[3]: self.bad("reversed / inclusive `for` over an isize range")
+            lo, hi = self.lit(lo, tl, "isize"), self.lit(hi, th, "isize")
+        elif tl not in ("usize", "lit") or th not in ("usize", "lit"): self.bad("`for` range over %s..%s" % (tl, th))
         if it[3]: hi = "(%s + 1)%%nat" % hi
-        env_i, iv = env.declare(pat[1], self.gname(pat[1]), "usize")
+        env_i, iv = env.declare(pat[1], self.gname(pat[1]), "isize" if signed else "usize")
         def run(rec):
             self.ctx = self.ctx.sub(record=rec, cont=lambda env2: g_ok(g_raw("tt")))
             self.block(body, env_i, lambda env2, v: g_ok(g_raw("tt")))
@@ -1262,7 +1273,7 @@ class Translator:
             fun = ("fun", [(iv.g, None), (names[0], sty)], bt)
         else:
             fun = ("fun", [(iv.g, None), ("_", "unit")], bt)
-        loop = ("app", "for_rev" if rev else "for_", [g_raw(lo), g_raw(hi), fun, g_raw(names_term(names))])
+        loop = ("app", "for_z" if signed else ("for_rev" if rev else "for_"), [g_raw(lo), g_raw(hi), fun, g_raw(names_term(names))])
         for v in M: self.ctx.note(v)
         return wrap(B, mk_bind(names_pat(names), loop, rest(env)))
 
